@@ -331,6 +331,15 @@ func catalogue(s *servers, keyStore string, now time.Time) []*mechSpec {
 				{Name: "empty", Cfg: M{}, Equiv: true, Inert: true},
 			},
 			Inputs: reqInputs[:3]},
+		// named templates ({{ define }}) belong to the template they are written in
+		{Kind: kFin, ID: "hdrnamed", Type: "header", Label: "header+named-templates", Cfg: M{"headers": M{
+			"X-User": `{{ define "uid" }}proto-{{ .Subject.ID }}{{ end }}{{ template "uid" . }}`, "X-Method": `{{ define "m" }}proto-m{{ end }}{{ template "m" . }}`}},
+			Overrides: []override{
+				{Name: "redefine", Cfg: M{"headers": M{"X-User": `{{ define "uid" }}rule-{{ .Subject.ID }}{{ end }}{{ template "uid" . }}`, "X-Method": `{{ define "m" }}rule-m{{ end }}{{ template "m" . }}`}}, Equiv: true},
+				{Name: "redefine-upper", Cfg: M{"headers": M{"X-User": `{{ define "uid" }}{{ .Subject.ID | upper }}{{ end }}{{ template "uid" . }}`, "X-Method": `{{ define "m" }}x{{ end }}{{ template "m" . }}`}}, Equiv: true},
+				{Name: "empty", Cfg: M{}, Equiv: true, Inert: true},
+			},
+			Inputs: reqInputs[:3]},
 		{Kind: kFin, ID: "cookie", Type: "cookie", Label: "cookie", Cfg: M{"cookies": M{"user": "{{ .Subject.ID }}", "m": "{{ .Request.Method }}"}},
 			Overrides: []override{
 				{Name: "same-keys", Cfg: M{"cookies": M{"user": "rule-{{ .Subject.ID }}", "m": "rule"}}, Equiv: true},
